@@ -28,6 +28,10 @@ pub enum OpSpec {
     Deliver(c_int),
     /// Wait until the kernel routes the signal to the library, then take one delivery.
     WaitDeliver(c_int),
+    /// Other code of the process installs its own handler for the signal with sigaction (kind:
+    /// 1 plain, 2 info, 3 plain+SA_RESTART|SA_NODEFER, 4 info+..., 5 ignore) - only while the library
+    /// has not taken the signal over yet.
+    Foreign(c_int, u64),
 }
 
 pub fn parse_script(s: &str) -> Vec<OpSpec> {
@@ -45,6 +49,7 @@ pub fn parse_script(s: &str) -> Vec<OpSpec> {
             "N" => OpSpec::Unchecked(a as c_int, b),
             "D" => OpSpec::Deliver(a as c_int),
             "W" => OpSpec::WaitDeliver(a as c_int),
+            "F" => OpSpec::Foreign(a as c_int, b),
             _ => panic!("bad op {}", tok),
         });
     }
@@ -132,6 +137,22 @@ fn run_op(w: &Arc<World>, op: &OpSpec) {
             verif::syscall_blocking("wait_lib", *sig);
             sched::deliver_here(*sig, sched::fresh_delivery_id());
         }
+        OpSpec::Foreign(sig, kind) => {
+            // one step of this thread: nobody else runs between the test and the sigaction
+            if sched::disposition_is_lib(*sig) {
+                sched::note("foreign_skipped", *sig as u64, *kind);
+            } else {
+                let k = match kind {
+                    1 => "plain",
+                    2 => "info",
+                    3 => "plainR",
+                    4 => "infoR",
+                    _ => "ign",
+                };
+                set_disposition(*sig, k);
+                sched::note("foreign_install", *sig as u64, *kind);
+            }
+        }
     }
 }
 
@@ -199,6 +220,9 @@ pub fn all_signals(scn: &Scn) -> Vec<c_int> {
                 | OpSpec::UnregSig(x)
                 | OpSpec::Deliver(x)
                 | OpSpec::WaitDeliver(x) => {
+                    s.insert(*x);
+                }
+                OpSpec::Foreign(x, _) => {
                     s.insert(*x);
                 }
                 _ => {}
@@ -305,6 +329,8 @@ fn lines_of(
                 "prev_plain" => Some(base("prev").int("sig", ev.a as i64).str("conv", "plain").int("id", 0).done()),
                 "prev_info" => Some(base("prev").int("sig", ev.a as i64).str("conv", "info").int("id", ev.b as i64).done()),
                 "disp_lib" => Some(base("disp_lib").int("sig", ev.a as i64).done()),
+                "foreign_install" => Some(base("foreign_install").int("sig", ev.a as i64).int("k", ev.b as i64).done()),
+                "foreign_skipped" => Some(base("foreign_skipped").int("sig", ev.a as i64).done()),
                 "deliver_begin" => {
                     frames.insert(key, FrameStats { steps: 0, locks: 0, hints: 0 });
                     Some(base("deliver").int("sig", ev.a as i64).int("id", ev.b as i64).done())
